@@ -339,6 +339,19 @@ func scriptCaseWithHook(c *core.Ctx, hostile bool, maxOps int, weights map[strin
 			statsOf(res, p)
 			hook(s, p, res)
 		}
+		for xi, xd := range s.Extra {
+			xp, _ := savedPackages(res, xd, c.WorkDir, fmt.Sprintf("c%d-%d-x%d", c.Case, k, xi))
+			for _, p := range xp {
+				probs := rules(p)
+				for j := range probs {
+					probs[j].Key += "/batch-render"
+				}
+				addProblems(res, probs, "a later document of a batch rendered with one data object ; ops: "+strings.Join(tail(s.Log, 25), " "))
+				statsOf(res, p)
+			}
+			res.Count("batch_renders_checked", 1)
+		}
+		s.Extra = nil
 	}
 	delete(s.Kinds, "__saves")
 	res.Count("api_calls", int64(len(s.Log)))
